@@ -120,6 +120,10 @@ int LLVMFuzzerTestOneInput(const uint8_t *data, size_t size)
 static const char *HDRS[] = {
 	"{\"alg\":\"%s\",\"typ\":\"JWT\"}", "{\"typ\":\"JWT\",\"alg\":\"%s\"}", "{\"alg\":\"%s\"}", "{\"alg\":\"%s\",\"kid\":\"k1\",\"x\":[1,2,{\"y\":null}]}",
 	"{\"alg\" : \"%s\" }", " {\"alg\":\"%s\"}", "{\"alg\":\"%s\"} ", "{\"alg\":\"%s\",\"alg\":\"none\"}", "{\"alg\":\"none\",\"alg\":\"%s\"}",
+	/* registered header parameter names with values of every JSON type (a reader that assumes a string must not trip) */
+	"{\"alg\":\"%s\",\"crv\":7,\"kid\":[1],\"typ\":{\"a\":1},\"crit\":true,\"cty\":1.5}",
+	"{\"alg\":\"%s\",\"crv\":null,\"kid\":null,\"typ\":null,\"crit\":null,\"jwk\":null,\"x5c\":null,\"epk\":null}",
+	"{\"alg\":\"%s\",\"crv\":[\"Ed25519\"],\"kid\":{\"k\":1},\"typ\":false,\"crit\":\"exp\",\"jwk\":7,\"x5c\":\"\",\"zip\":[],\"kty\":1,\"use\":2,\"key_ops\":\"sign\",\"k\":3,\"x\":4,\"d\":5}",
 };
 static const char *BADHDRS[] = { "{\"typ\":\"JWT\"}", "{\"alg\":256}", "{\"alg\":null}", "{\"alg\":[\"HS256\"]}", "{\"alg\":\"XX\"}", "{\"alg\":\"hs256\"}",
 	"[\"alg\",\"HS256\"]", "\"HS256\"", "123", "", "{", "{\"alg\":\"HS256\"", "{\"alg\":\"HS256\",}", "{'alg':'HS256'}", "null", "{\"alg\":\"HS256\"}x",
@@ -177,7 +181,7 @@ static void gen_case(long idx)
 		tok = make_valid(kidx, HDRS[vh_below(&rng, 7)], PAYLOADS[vh_below(&rng, 3)]);
 		break;
 	case 1:	/* valid with duplicate alg members / odd payloads */
-		tok = make_valid(kidx, HDRS[vh_below(&rng, 9)], PAYLOADS[vh_below(&rng, 13)]);
+		tok = make_valid(kidx, HDRS[vh_below(&rng, 12)], PAYLOADS[vh_below(&rng, 13)]);
 		break;
 	case 2: { /* malformed header JSON, correctly signed */
 		const char *h = BADHDRS[vh_below(&rng, sizeof(BADHDRS) / sizeof(*BADHDRS))];
